@@ -19,7 +19,10 @@ def witness(model=None, **extra):
         model = E.fresh_model()
     w = {k: _j(concretize(v, model)) for k, v in E.inputs.items()}
     for k, v in extra.items():
-        w[k] = _j(concretize(v, model))
+        c = concretize(v, model)
+        w[k] = _j(c)
+        if k == "value":
+            w["value_repr"] = repr(c)
     return w
 
 
